@@ -462,6 +462,17 @@ func (t *tokenizer) skipSymbolOperator() (int, error) {
 	}
 
 	for isOperatorChar(c) {
+		if c == '/' {
+			// A '//' or '/*' starts a comment, also directly after an operator.
+			c2, err := t.peek()
+			if err != nil {
+				return 0, err
+			}
+			if c2 == '/' || c2 == '*' {
+				break
+			}
+		}
+
 		c, err = t.read()
 		if err != nil {
 			return 0, err
